@@ -519,7 +519,11 @@ class ZorgFileCompiler(ZorgFileListener):
                 if not words:
                     continue
                 first_word = words.pop(0)
-                if first_word.endswith("::"):
+                # An inline property (e.g. '[key:: some value]') that starts
+                # a note or bullet is NOT a bullet property.
+                if first_word.endswith("::") and not first_word.startswith(
+                    "["
+                ):
                     key = first_word[:-2]
                     value = re.sub(r"\s+", " ", " ".join(words).strip())
                     self._add_prop(key, value)
